@@ -1,3 +1,4 @@
+import sys
 #!/usr/bin/env python3
 """tools/keep_seeded.py <src dir> <seeded id> <PID> <exit code of check> "<how it was caught / missed>"
 Copies patch.diff [c.diff] demo.py meta.json into /verif/seeded/<id>/ and records what was run."""
@@ -5,6 +6,8 @@ import json, os, shutil, sys
 src, sid, pid, rc, how = sys.argv[1:6]
 V = os.path.dirname(os.path.dirname(os.path.abspath(__file__)))
 dst = os.path.join(V, "seeded", sid)
+if os.path.exists(os.path.join(dst, 'meta.json')) and not os.environ.get('KEEP_OVERWRITE'):
+    sys.exit(f'{dst} exists already - choose the next free id (KEEP_OVERWRITE=1 to replace)')
 os.makedirs(dst, exist_ok=True)
 for f in ("patch.diff", "c.diff", "demo.py"):
     if os.path.exists(os.path.join(src, f)):
